@@ -274,6 +274,8 @@ pub fn exec_op(op: &Op, sh: &SharedObjs, su: &Setup) -> Vec<u8> {
         }
         Op::Relin { save_seed } => ser_obj(Obj::Relin(sh.keygen.create_relin_keys(*save_seed)), &sh.ctx),
         Op::Pk { save_seed } => ser_obj(Obj::Pk(sh.keygen.create_public_key(*save_seed)), &sh.ctx),
+        // an empty element list stands for the default key set (create_galois_keys)
+        Op::Galois { elts, save_seed } if elts.is_empty() => ser_obj(Obj::Galois(sh.keygen.create_galois_keys(*save_seed)), &sh.ctx),
         Op::Galois { elts, save_seed } => ser_obj(Obj::Galois(sh.keygen.create_galois_keys_from_elts(elts, *save_seed)), &sh.ctx),
         Op::KSwitch { save_seed, seed } => {
             // the "other" secret key: a canonical ternary key derived from the seed
@@ -668,7 +670,9 @@ fn gen_scenario(rng: &mut Prng, run_seed: u64) -> Option<Scn> {
                 4 => Op::Pk { save_seed: rng.coin() },
                 5 => {
                     let mut elts = Vec::new();
-                    for _ in 0..(if many_elts { rng.range(3, 6) } else { rng.range(1, 3) }) {
+                    // one request in five asks for the default key set (all power-of-two steps)
+                    let default_set = rng.chance(1, 5);
+                    for _ in 0..(if default_set { 0 } else if many_elts { rng.range(3, 6) } else { rng.range(1, 3) }) {
                         elts.push(if !many_elts && rng.chance(2, 3) { *rng.pick(&shared_elts) } else { 2 * rng.usize_below(n) + 1 });
                     }
                     Op::Galois { elts, save_seed: rng.coin() }
